@@ -8,6 +8,7 @@ import (
 	"errors"
 	"flag"
 	"os"
+	"strings"
 
 	rt "github.com/akalin/gopar/internal/zzverifrt"
 	"github.com/akalin/gopar/par1"
@@ -26,6 +27,8 @@ const (
 
 var (
 	c20Outcome   = -1
+	c20Lib       = 0  // 1 = par1, 2 = par2: the library the CLI called
+	c20Path      = "" // the index path it was given
 	c20Unusable  int
 	c20UsablePar int
 	errOther     = errors.New("some other failure")
@@ -54,26 +57,36 @@ func c20Err(par1Kind bool) error {
 	return nil
 }
 
-func stubP1Create(string, []string, par1.CreateOptions) error { return c20Err(true) }
-func stubP2Create(string, []string, par2.CreateOptions) error { return c20Err(false) }
-func stubP1Verify(string, par1.VerifyOptions) (par1.VerifyResult, error) {
+func stubP1Create(p string, _ []string, _ par1.CreateOptions) error {
+	c20Lib, c20Path = 1, p
+	return c20Err(true)
+}
+func stubP2Create(p string, _ []string, _ par2.CreateOptions) error {
+	c20Lib, c20Path = 2, p
+	return c20Err(false)
+}
+func stubP1Verify(p string, _ par1.VerifyOptions) (par1.VerifyResult, error) {
+	c20Lib, c20Path = 1, p
 	c20Choose()
 	if c20Outcome == outOtherError {
 		return par1.VerifyResult{}, errOther
 	}
 	return par1.VerifyResult{FileCounts: par1.FileCounts{UnusableDataFileCount: c20Unusable, UsableParityFileCount: c20UsablePar}}, nil
 }
-func stubP2Verify(string, par2.VerifyOptions) (par2.VerifyResult, error) {
+func stubP2Verify(p string, _ par2.VerifyOptions) (par2.VerifyResult, error) {
+	c20Lib, c20Path = 2, p
 	c20Choose()
 	if c20Outcome == outOtherError {
 		return par2.VerifyResult{}, errOther
 	}
 	return par2.VerifyResult{ShardCounts: par2.ShardCounts{UnusableDataShardCount: c20Unusable, UsableParityShardCount: c20UsablePar}}, nil
 }
-func stubP1Repair(string, par1.RepairOptions) (par1.RepairResult, error) {
+func stubP1Repair(p string, _ par1.RepairOptions) (par1.RepairResult, error) {
+	c20Lib, c20Path = 1, p
 	return par1.RepairResult{}, c20Err(true)
 }
-func stubP2Repair(string, par2.RepairOptions) (par2.RepairResult, error) {
+func stubP2Repair(p string, _ par2.RepairOptions) (par2.RepairResult, error) {
+	c20Lib, c20Path = 2, p
 	return par2.RepairResult{}, c20Err(false)
 }
 func stubPrintDefaults(*flag.FlagSet) {}
@@ -89,10 +102,10 @@ func VerifHarness_C20_main() {
 
 	cmds := []string{"c", "create", "v", "verify", "r", "repair", "C", "Verify", "REPAIR", "bogus", ""}
 	cmd := cmds[rt.Choice("cmd", len(cmds))]
-	exts := []string{"s.par", "s.par2", "dir/s.par2", "s.txt", "s", ""}
+	exts := []string{"s.par", "s.par2", "dir/s.par2", "s.txt", "s", "", "a.b.par2", "a.b.par", "d.x/s.par2"}
 	file := exts[rt.Choice("file", len(exts))]
 	flagKind := rt.Choice("flags", 4)
-	c20Outcome = -1
+	c20Outcome, c20Lib, c20Path = -1, 0, ""
 
 	args := []string{"par"}
 	if flagKind == 1 {
@@ -121,10 +134,16 @@ func VerifHarness_C20_main() {
 	// the expected status, straight from the property
 	lower := map[string]string{"c": "create", "create": "create", "C": "create", "v": "verify", "verify": "verify", "Verify": "verify",
 		"r": "repair", "repair": "repair", "REPAIR": "repair"}[cmd]
-	isPar := file == "s.par" || file == "s.par2" || file == "dir/s.par2"
+	isPar := strings.HasSuffix(file, ".par") || strings.HasSuffix(file, ".par2")
 	usage := flagKind == 2 || flagKind == 3 || cmd == "" || lower == "" || file == "" || (lower == "create" && nData == 0)
 	if !usage && isPar {
 		rt.Assert(c20Outcome >= 0, "a well-formed command line reaches the requested library operation")
+		want := 1
+		if strings.HasSuffix(file, ".par2") {
+			want = 2
+		}
+		rt.Assert(c20Lib == want, "the format is chosen by the index file's extension")
+		rt.Assert(c20Path == file, "the library is handed the index path as given")
 	}
 	switch {
 	case usage:
